@@ -1,6 +1,6 @@
 (* The Q instance of the model, as the functions the runner calls. *)
 From Coq Require Import List ZArith QArith Bool.
-From SplipyModel Require Import Model.Num Model.BasisDef Model.BasisEval Model.Knots Model.Tensor Model.Obj Model.Deriv Model.KnotInsert Model.Reparam Model.Affine Model.Tol Model.StateCtx Model.Solve Model.Order Model.Split Model.Periodic Model.WF Model.Ops Model.Identical Model.Factory Model.Interp Model.Section Model.Measure Model.Orient Model.Numbering Model.G2 Gen.CircleNets.
+From SplipyModel Require Import Model.Num Model.BasisDef Model.BasisEval Model.Knots Model.Tensor Model.Obj Model.Deriv Model.KnotInsert Model.Reparam Model.Affine Model.Tol Model.StateCtx Model.Solve Model.Order Model.Split Model.Periodic Model.WF Model.Ops Model.Identical Model.Append Model.Factory Model.Interp Model.Section Model.Measure Model.Orient Model.Numbering Model.G2 Gen.CircleNets.
 Import ListNotations.
 
 Definition q_basis_evaluate := @basis_evaluate Q NumQ.
@@ -49,6 +49,7 @@ Definition q_wf_obj_b := @wf_obj_b Q NumQ.
 Definition q_basis_ctor := @basis_ctor Q NumQ.
 Definition q_obj_make_identical := @obj_make_identical Q NumQ.
 Definition q_obj_compatible := @obj_compatible Q NumQ.
+Definition q_obj_append := @obj_append Q NumQ.
 Definition q_cs_loop_tab := @cs_loop_tab Q NumQ.
 Definition q_revolve_cps := @revolve_cps Q NumQ.
 Definition q_extrude_cps := @extrude_cps Q NumQ.
